@@ -36,6 +36,8 @@ ASSUMPTIONS = (
     "sin/cos/tan are driven only with operands whose dimension is exactly angle; exp/log/hyperbolic/inverse trig, rounding family, frexp/modf/spacing/nextafter/heaviside/ldexp are outside the claim and not driven; offset and logarithmic units are excluded (C08)",
     "method call forms (a.dot, a.sum, a.mean, ...) are driven only on quantities: a plain ndarray's C methods (ndarray.dot(quantity) returns a bare array) cannot be intercepted by unyt and are not unyt call forms",
     "every power is charged NEAR ulps even in the dyadic pool (NumPy evaluates x**2, x**0.5, np.power(x, array) by different routines that differ in the last place), so powers never feed a discontinuous operation in the dyadic pool; cube-root units (4096**(1/3) is not exactly 16 in float pow) get 4 ulp slack and are never leaf units there",
+    "unit-scale noise: unyt evaluates the scale of unit**(1/3) with float pow (binary 1/3 amplified by ln(scale): 17 ulp for 2**96) and its lru-cached unit rules later hand that unit object back for any unit that compares equal (same expression, scale within 1e-9), so a result scale may be a few 1e-15 off through history. Tolerated as rounding noise of the unit table, not an arithmetic defect: a dyadic-pool result whose scale is not a power of two gets (4 + 0.5*|log2 scale|) ulp, every real-pool result 0.5*|log2 scale| ulp, and the slack is handed on to everything computed from that result",
+    "left-most-unit rule compares the unit expression and the scale to 1e-12: unyt's cached unit rules may hand back an equal unit object whose scale differs in the last place (60.00000000000001 vs 60.0 for min)",
     "float32 operands (dtype matrix) are combined only with units at most 2**12 apart: a 2**24 ratio exhausts the 24-bit significand and the exact-sum argument no longer holds",
     "an out= ndarray / bare in-place target has no unit label: its numbers must equal the numbers of the returned quantity",
     "the same symbol defined with different sizes in two registries is a legitimate operand pair (custom-registry units of the quantifier); each operand means what its own registry says",
@@ -367,6 +369,19 @@ def nondyadic(scale):
     return m != 0.5
 
 
+def root_slack(scale, exact):
+    """extra relative tolerance for the scale of the result's unit.  unyt evaluates unit**(1/3) with float pow: the binary
+    1/3 is 5.6e-17 off and the power amplifies that by ln(scale) (17 ulp for 2**96), and its cached unit rules hand such a
+    unit object back later for any unit that compares equal (same expression, scale within 1e-9).  Dyadic pool: only when
+    the observed scale is not a power of two; real pool: always."""
+    import math
+    if scale <= 0 or not math.isfinite(scale):
+        return 0.0
+    if exact and not nondyadic(scale):
+        return 0.0
+    return ((4 if exact else 0) + 0.5 * abs(math.log2(scale))) * EPS
+
+
 FC = {"op": "call", "call": "call", "np": "call", "method": "call", "ufunc": "call", "outer": "outer", "out": "target", "outnd": "target", "iop": "target"}
 
 
@@ -415,9 +430,8 @@ def judge_node(env, rec, prog, j, i, nd, obs, ref, rel, kinds, left=None):
             viol(name, "dimension", f"C04:{tag}:dimension:{name}:{rel}", f"{where}: {name} has unit {us} (dimension {dims.show(dim)}); "
                  f"dimensional analysis gives {dims.show(rv.dim)}")
             continue
-        slack = 0.0
-        if pool.exact and nondyadic(scale):
-            slack = 4 * EPS
+        slack = root_slack(scale, pool.exact)
+        if pool.exact and slack:
             rec.count("dyadic:result-scale-not-a-power-of-two")
         ok, n, why = compare(num, scale, rv, pool.exact, slack)
         if why == "shape":
@@ -488,7 +502,7 @@ def left_unit_rule(env, rec, prog, j, i, nd, obs, objs, rel, kinds):
         if x is None:
             continue
         xu = getattr(x, "units", None)
-        if xu is None or str(xu.expr) != str(lu.expr) or float(xu.base_value) != float(lu.base_value):
+        if xu is None or str(xu.expr) != str(lu.expr) or abs(float(xu.base_value) - float(lu.base_value)) > 1e-12 * abs(float(lu.base_value)):
             keys.append(rec_v(rec, f"C04:{nd['op']}/{FC[nd['form']]}:not-in-unit-of-left-operand:{name}:{rel}",
                               f"{describe(prog, j, i)}: {name} comes back in {xu} although the left-most operand is in {lu}", prog, j, i))
         else:
@@ -542,6 +556,12 @@ def run_program(env, rec, prog, group_log=None):
             if keys:
                 return True
             judged = True
+            for n_, x_ in obs.items():        # what unyt hands on is only as exact as its unit scale: tell the reference
+                if n_ in ("ret", "ret0", "ret1") and hasattr(x_, "units") and isinstance(x_, np.ndarray):
+                    rv_ = refs[i][int(n_[-1])] if isinstance(refs[i], tuple) else refs[i]
+                    sl_ = root_slack(float(x_.units.base_value), pool.exact)
+                    if sl_ and not rv_.isbool:
+                        rv_.err = rv_.err + sl_ * np.abs(rv_.si)
             try:
                 out[i] = ("ok", {n: si_of(x) for n, x in obs.items() if n.startswith("ret")}, rel, kinds)
             except TypeError:
